@@ -136,6 +136,7 @@ type Thread struct {
 	objs    int
 	clock   vc
 	steps   int
+	WakeAt  int64 // timed mode: a sleeping thread becomes enabled at this virtual time
 	chosen  int // alternative chosen for a select
 	decided bool // chosen at a decision point: record the post-operation state key
 	blockedSince int
@@ -160,6 +161,7 @@ type Env struct {
 	obj     *Obj
 	fired   int
 	clock   vc
+	Due     func() int64 // timed mode: absolute due time (ns)
 }
 
 // Cache is the happens-before state cache shared by the executions of one search.
@@ -212,6 +214,8 @@ type Sched struct {
 	EnvDefault int // default budget for env sources
 	EnvBudgets map[string]int
 	NoEnv    bool
+	Timed    bool
+	maxNow   int64
 }
 
 var cur *Sched
@@ -239,6 +243,12 @@ type Config struct {
 	EnvBudgets map[string]int // substring of env name -> budget (overrides EnvBudget)
 	NoEnv    bool
 	StartTime int64 // virtual clock start (ns); 0 = fixed default (executions of one scenario must start alike)
+	// Timed: discrete-event mode. Timers, tickers, deadlines and sleeps carry due times; they are not explored
+	// as alternatives but fire in due-time order whenever no thread can run (the virtual clock jumps to the
+	// earliest due time). Used for fair deterministic executions of whole protocols.
+	Timed bool
+	// MaxTime (timed mode): the execution is aborted with outcome Horizon when the virtual clock passes start+MaxTime.
+	MaxTime int64
 }
 
 // Run executes body as thread 0 under a fresh scheduler and returns it after the
@@ -246,12 +256,15 @@ type Config struct {
 func Run(cfg Config, body func()) *Sched {
 	s := &Sched{Prefix: cfg.Prefix, Bound: cfg.Bound, MaxSteps: cfg.MaxSteps, cache: cfg.Cache,
 		finished: make(chan struct{}), objs: map[any]*Obj{}, TraceOn: cfg.Trace, Vals: map[string]any{},
-		Now: 1_700_000_000_000_000_000, EnvDefault: cfg.EnvBudget, EnvBudgets: cfg.EnvBudgets, NoEnv: cfg.NoEnv}
+		Now: 1_700_000_000_000_000_000, EnvDefault: cfg.EnvBudget, EnvBudgets: cfg.EnvBudgets, NoEnv: cfg.NoEnv, Timed: cfg.Timed}
 	if s.MaxSteps == 0 {
 		s.MaxSteps = 200000
 	}
 	if cfg.StartTime != 0 {
 		s.Now = cfg.StartTime
+	}
+	if cfg.MaxTime > 0 {
+		s.maxNow = s.Now + cfg.MaxTime
 	}
 	if cur != nil {
 		panic("vsched: nested Run")
@@ -577,8 +590,44 @@ func (s *Sched) pick(t *Thread, exiting bool) (*Thread, int, *Env) {
 			return pickT, 0, nil
 		}
 	}
+	if s.Timed && len(alts) == 0 {
+		// discrete-event step: nothing can run, so time passes until the earliest sleeper or timer is due
+		var bestT int64 = -1
+		var bestEnv *Env
+		for _, th := range s.threads {
+			if !th.done && th.WakeAt > 0 && th.pending != nil && th.pending.Kind == KSleep {
+				if bestT < 0 || th.WakeAt < bestT {
+					bestT, bestEnv = th.WakeAt, nil
+				}
+			}
+		}
+		for _, e := range s.envs {
+			if e.Due != nil && e.Budget > 0 && (e.Enabled == nil || e.Enabled()) {
+				if d := e.Due(); bestT < 0 || d < bestT {
+					bestT, bestEnv = d, e
+				}
+			}
+		}
+		if bestT >= 0 {
+			if s.maxNow > 0 && bestT > s.maxNow {
+				s.Out = Horizon
+				s.Detail = "virtual time limit reached; threads: " + s.describeBlocked()
+				s.abort()
+				return nil, 0, nil
+			}
+			if bestT > s.Now {
+				s.Now = bestT
+			}
+			if bestEnv != nil {
+				return nil, 0, bestEnv
+			}
+			// a sleeper is due now: decide again
+			s.Steps--
+			return s.pick(t, exiting)
+		}
+	}
 	// environment events
-	if !s.NoEnv {
+	if !s.NoEnv && !s.Timed {
 		for _, e := range s.envs {
 			if e.fired < e.Budget && (e.Enabled == nil || e.Enabled()) {
 				alts = append(alts, alt{e: e})
@@ -859,6 +908,21 @@ func AddEnv(name string, budget int, enabled func() bool, fire func()) *Env {
 	return e
 }
 
+// AddTimedEnv registers a time-driven source (ticker, timer, deadline) for timed mode; in untimed mode it is a plain source.
+func AddTimedEnv(name string, budget int, enabled func() bool, fire func(), due func() int64) *Env {
+	e := AddEnv(name, budget, enabled, fire)
+	if e != nil {
+		e.Due = due
+		if cur.Timed {
+			e.Budget = 1 << 30
+		}
+	}
+	return e
+}
+
+// TimedMode reports whether the running execution is in discrete-event mode.
+func TimedMode() bool { return cur != nil && cur.Timed }
+
 // RemoveEnv disables an environment source.
 func RemoveEnv(e *Env) {
 	if e != nil {
@@ -994,4 +1058,19 @@ func Quiesce() {
 		}
 		return true
 	}})
+}
+
+// SleepUntil blocks the caller until the virtual clock reaches wake (timed mode).
+func SleepUntil(wake int64) {
+	s := cur
+	if s == nil {
+		return
+	}
+	if s.poison {
+		panic(poisonExit{})
+	}
+	t := s.running
+	t.WakeAt = wake
+	Point(&Op{Kind: KSleep, Enabled: func() bool { return s.Now >= wake }})
+	t.WakeAt = 0
 }
